@@ -152,12 +152,13 @@ class Types:
 _TYPES = None
 
 
-def load_types(repo='/repo'):
+def load_types(repo=None):
     global _TYPES
     t = Types()
     srcs = sorted(glob.glob(_REG + 'swc_ecma_ast-8.1.0/src/*.rs'))
     t.load(srcs)
-    t.load(sorted(glob.glob(repo + '/visitor/src/*.rs')))
+    from . import driver as _drv
+    t.load(sorted(glob.glob((repo or _drv.REPO) + '/visitor/src/*.rs')))
     t.enums['Option'] = [('None', [], 0, None), ('Some', ['T'], 1, None)]
     t.enums['Result'] = [('Ok', ['T'], 0, None), ('Err', ['E'], 1, None)]
     t.enums['Cow'] = [('Borrowed', ['T'], 0, None), ('Owned', ['T'], 1, None)]
